@@ -144,6 +144,31 @@ fn check_ordered(x: &RawH, y: &RawH, sx: u8, sy: u8, dirt: &RawH, exp: u32, st: 
         }
         st.class("short_forms_too");
     }
+    // 6. the block-hash level entry points behind them: the position arrays of the target score a string at
+    //    a given effective block size (log 0..=31; 31 is block hash 2 of the largest block size) or without a cap
+    {
+        use ssdeep::internal_comparison::BlockHashPositionArrayImpl;
+        let (cx, cy) = (x.collapsed(), y.collapsed());
+        let fp = oracle::fingerprint(format!("{}|{}", cx.text(), cy.text()).as_bytes());
+        // the effective levels of the two block hashes of x, the extreme ones, and one drawn from the pair
+        let logs = [x.log, x.log + 1, 0, 3, 4, 30, 31, (fp % 32) as u8];
+        for (which, mine, theirs) in [(1, &cx.bh1, &cy.bh1), (2, &cx.bh2, &cy.bh2), (1, &cx.bh1, &cy.bh2), (2, &cx.bh2, &cy.bh1)] {
+            let uncapped = oracle::cmp::score_strings(mine, theirs, 1 << 40);
+            let raw = must("score_strings_raw", || if which == 1 { t.block_hash_1().score_strings_raw(theirs) } else { t.block_hash_2().score_strings_raw(theirs) })?;
+            ensure_eq!(raw, uncapped, "block_hash_{}().score_strings_raw({:?}) of the target of {}", which, theirs, cx.text());
+            for &log in &logs {
+                let e = oracle::cmp::score_strings(mine, theirs, 3u64 << log);
+                let s = must("score_strings", || if which == 1 { t.block_hash_1().score_strings(theirs, log) } else { t.block_hash_2().score_strings(theirs, log) })?;
+                ensure_eq!(s, e, "block_hash_{}().score_strings({:?}, log block size {}) of the target of {}", which, theirs, log, cx.text());
+            }
+        }
+        let mut pa = ssdeep::internal_comparison::BlockHashPositionArray::new();
+        must("BlockHashPositionArray::init_from", || pa.init_from(&cy.bh1))?;
+        must("BlockHashPositionArray::init_from", || pa.init_from(&cx.bh1))?;
+        let log = (fp >> 8) as u8 % 32;
+        let s = must("score_strings", || pa.score_strings(&cy.bh1, log))?;
+        ensure_eq!(s, oracle::cmp::score_strings(&cx.bh1, &cy.bh1, 3u64 << log), "BlockHashPositionArray({:?}).score_strings({:?}, {})", cx.bh1, cy.bh1, log);
+    }
     let _ = fixed_hash(&nx);
     Ok(())
 }
@@ -323,7 +348,7 @@ fn strategy_main() -> impl Strategy<Value = Case> {
 pub fn subchecks(tier: Tier) -> Vec<SubCheck> {
     vec![generated(
         "compare_vs_reference",
-        "pairs (a, b): b derived from a (identical, identical after collapsing only, <= 8 edits per block hash, transplanted 6/7/8-gram, unrelated), block-size relation eq/x2/:2/far with the comparable block hashes crossed accordingly, raw/collapsed/with-name spelling, short and long; every entry point in both orders; non-trivial = 0 < reference score < 100; distinct by the two texts",
+        "pairs (a, b): b derived from a (identical, identical after collapsing only, <= 8 edits per block hash, transplanted 6/7/8-gram, unrelated), block-size relation eq/x2/:2/far with the comparable block hashes crossed accordingly, raw/collapsed/with-name spelling, short and long; every entry point in both orders, down to score_strings / score_strings_raw of the position arrays at log block sizes 0..=31; non-trivial = 0 < reference score < 100; distinct by the two texts",
         tier.pick(800_000, 10_000_000),
         strategy,
         eval,
